@@ -347,6 +347,112 @@ theorem C19_filter_buffer_free (conv : Bool) (order : ℕ) (ho : 1 ≤ order) (n
     rw [hsame] at h1
     exact h1.trans' h2.symm'
 
+/-! ### frame of the filter programs and the vector wrapper -/
+
+theorem filter_multiplicative_frame (order : ℕ) (nz ny nx : ℤ) (hnz : 1 ≤ nz) (hny : 1 ≤ ny) (hnx : 1 ≤ nx)
+    (f flux buf : B) (hne : flux ≠ buf) (s : Store3 B K) (b : B) (h1 : b ≠ f) (h2 : b ≠ flux) (h3 : b ≠ buf) :
+    exec3 (filterMultiplicative3D order nz ny nx f flux buf) s b = s b := by
+  have hprog : (filterMultiplicative3D order nz ny nx f flux buf : List (Call3 B K))
+      = setBoundary3D nz ny nx 1 flux 0 ++ elementwiseCopy3D (full3 nz ny nx) buf f
+        ++ passes nz ny nx (mulAxes order) flux buf ++ elementwiseSaxpby3D nz ny nx f f flux 1 (-1) := by
+    unfold filterMultiplicative3D
+    have : (filterPass nz ny nx 0 flux buf ++ filterPass nz ny nx 1 flux buf ++ filterPass nz ny nx 2 flux buf : List (Call3 B K))
+        = passes nz ny nx [0, 1, 2] flux buf := by simp [passes]
+    rw [this, repeat_passes]; rfl
+  rw [hprog]
+  simp only [exec3_append]
+  rw [(C13_elementwise_saxpby_3d nz ny nx f f flux 1 (-1) _).2 b h1]
+  -- passes: frame without the ring-zero hypothesis (no value claim needed)
+  have hp : ∀ (axes : List ℕ) (t : Store3 B K), exec3 (passes nz ny nx axes flux buf) t b = t b := by
+    intro axes t
+    apply exec3_other
+    simp only [written3, passes, List.mem_flatMap, not_exists, not_and]
+    intro c hc
+    obtain ⟨ax, _, hcx⟩ := hc
+    rcases ax with _ | _ | ax <;>
+      simp [filterPass, filterAxis, elementwiseCopy3D, call_laplacian_filter_3d_x, call_laplacian_filter_3d_y,
+        call_laplacian_filter_3d_z, call_elementwise_copy_stencil_3d] at hcx <;>
+      rcases hcx with rfl | rfl <;> simp [Call3.written, h2, h3]
+  rw [hp, (C13_elementwise_copy_3d nz ny nx buf f _).2 b h3, (C13_set_boundary_3d nz ny nx 1 le_rfl hnz hny hnx flux (0 : K) s).2 b h2]
+
+theorem filter_convolution_frame (order : ℕ) (ho : 1 ≤ order) (nz ny nx : ℤ) (hnz : 1 ≤ nz) (hny : 1 ≤ ny) (hnx : 1 ≤ nx)
+    (f flux buf : B) (hff : f ≠ flux) (hfb : f ≠ buf) (hne : flux ≠ buf) (s : Store3 B K) (b : B) (h1 : b ≠ f) (h2 : b ≠ flux) (h3 : b ≠ buf) :
+    exec3 (filterConvolution3D order nz ny nx f flux buf) s b = s b := by
+  unfold filterConvolution3D
+  simp only [exec3_append]
+  set t0 := exec3 (setBoundary3D nz ny nx 1 flux (0 : K)) s with ht0
+  obtain ⟨b0, b0F⟩ := C13_set_boundary_3d nz ny nx 1 le_rfl hnz hny hnx flux (0 : K) s
+  have hz0 : RingZero nz ny nx (t0 flux) := by
+    intro i j k hb hnin
+    rw [ht0, b0 i j k hb]
+    simp only [onRing3, inner3] at hnin ⊢
+    rw [if_pos (by omega)]
+  obtain ⟨_, x2, x3⟩ := convAxis_spec order ho nz ny nx 0 f flux buf hff hfb hne t0 hz0
+  set tx := exec3 (filterConvolutionAxis order nz ny nx 0 f flux buf) t0 with htx
+  obtain ⟨_, y2, y3⟩ := convAxis_spec order ho nz ny nx 1 f flux buf hff hfb hne tx x2
+  set ty := exec3 (filterConvolutionAxis order nz ny nx 1 f flux buf) tx with hty
+  obtain ⟨_, _, z3⟩ := convAxis_spec order ho nz ny nx 2 f flux buf hff hfb hne ty y2
+  rw [z3 b h1 h2 h3, y3 b h1 h2 h3, x3 b h1 h2 h3, ht0, b0F b h2]
+
+/-- the filter as an operator on the incoming field (both types) -/
+def filterOp (conv : Bool) (order : ℕ) (nz ny nx : ℤ) (g : F3 K) : F3 K :=
+  if conv then convOp nz ny nx order 2 (convOp nz ny nx order 1 (convOp nz ny nx order 0 g))
+  else fun i j k => g i j k - opOf nz ny nx (mulAxes order) g i j k
+
+theorem filterOp_congr (conv : Bool) (order : ℕ) (nz ny nx : ℤ) (g g' : F3 K) (h : EqBox3 nz ny nx g g') :
+    EqBox3 nz ny nx (filterOp conv order nz ny nx g) (filterOp conv order nz ny nx g') := by
+  cases conv
+  · intro i j k hb
+    simp only [filterOp, Bool.false_eq_true, if_false]
+    rw [h i j k hb, opOf_congr nz ny nx _ g g' h i j k hb]
+  · simp only [filterOp, if_true]
+    exact convOp_congr _ _ _ _ _ _ _ (convOp_congr _ _ _ _ _ _ _ (convOp_congr _ _ _ _ _ _ _ h))
+
+/-- the dispatched filter wrapper: value and frame -/
+theorem C19_filter_3d (conv : Bool) (order : ℕ) (ho : 1 ≤ order) (nz ny nx : ℤ) (hnz : 1 ≤ nz) (hny : 1 ≤ ny) (hnx : 1 ≤ nx)
+    (f flux buf : B) (hff : f ≠ flux) (hfb : f ≠ buf) (hne : flux ≠ buf) (s : Store3 B K) :
+    EqBox3 nz ny nx (exec3 (filter3D conv order nz ny nx f flux buf) s f) (filterOp conv order nz ny nx (s f)) ∧
+    (∀ b, b ≠ f → b ≠ flux → b ≠ buf → exec3 (filter3D conv order nz ny nx f flux buf) s b = s b) := by
+  cases conv
+  · simp only [filter3D, filterOp, Bool.false_eq_true, if_false]
+    exact ⟨C19_filter_multiplicative_3d order ho nz ny nx hnz hny hnx f flux buf hff hfb hne s,
+      fun b h1 h2 h3 => filter_multiplicative_frame order nz ny nx hnz hny hnx f flux buf hne s b h1 h2 h3⟩
+  · simp only [filter3D, filterOp, if_true]
+    exact ⟨C19_filter_convolution_3d order ho nz ny nx hnz hny hnx f flux buf hff hfb hne s,
+      fun b h1 h2 h3 => filter_convolution_frame order ho nz ny nx hnz hny hnx f flux buf hff hfb hne s b h1 h2 h3⟩
+
+/-- C19 (vector filter wrapper as used by the 3D simulator: three components, ONE shared flux buffer and ONE shared
+work buffer): every component of the result is the filter operator applied to that component of the incoming field —
+independent of the two work buffers and of the other components -/
+theorem C19_filter_vec_3d (conv : Bool) (order : ℕ) (ho : 1 ≤ order) (nz ny nx : ℤ) (hnz : 1 ≤ nz) (hny : 1 ≤ ny) (hnx : 1 ≤ nx)
+    (f : Vec3 B) (flux buf : B) (hxy : f.x ≠ f.y) (hxz : f.x ≠ f.z) (hyz : f.y ≠ f.z)
+    (hxf : f.x ≠ flux) (hyf : f.y ≠ flux) (hzf : f.z ≠ flux) (hxb : f.x ≠ buf) (hyb : f.y ≠ buf) (hzb : f.z ≠ buf)
+    (hne : flux ≠ buf) (s : Store3 B K) :
+    EqBox3 nz ny nx (exec3 (filterVec3D conv order nz ny nx f flux buf) s f.x) (filterOp conv order nz ny nx (s f.x)) ∧
+    EqBox3 nz ny nx (exec3 (filterVec3D conv order nz ny nx f flux buf) s f.y) (filterOp conv order nz ny nx (s f.y)) ∧
+    EqBox3 nz ny nx (exec3 (filterVec3D conv order nz ny nx f flux buf) s f.z) (filterOp conv order nz ny nx (s f.z)) ∧
+    (∀ b, b ≠ f.x → b ≠ f.y → b ≠ f.z → b ≠ flux → b ≠ buf → exec3 (filterVec3D conv order nz ny nx f flux buf) s b = s b) := by
+  unfold filterVec3D
+  simp only [exec3_append]
+  set s1 := exec3 (filter3D conv order nz ny nx f.x flux buf) s with hs1
+  set s2 := exec3 (filter3D conv order nz ny nx f.y flux buf) s1 with hs2
+  obtain ⟨vx, fx⟩ := C19_filter_3d conv order ho nz ny nx hnz hny hnx f.x flux buf hxf hxb hne s
+  obtain ⟨vy, fy⟩ := C19_filter_3d conv order ho nz ny nx hnz hny hnx f.y flux buf hyf hyb hne s1
+  obtain ⟨vz, fz⟩ := C19_filter_3d conv order ho nz ny nx hnz hny hnx f.z flux buf hzf hzb hne s2
+  refine ⟨?_, ?_, ?_, ?_⟩
+  · intro i j k hb
+    rw [fz f.x hxz hxf hxb, hs2, fy f.x hxy hxf hxb]
+    exact vx i j k hb
+  · intro i j k hb
+    rw [fz f.y hyz hyf hyb]
+    have := vy i j k hb
+    rw [← hs2] at this
+    rw [this, hs1, fx f.y hxy.symm hyf hyb]
+  · intro i j k hb
+    rw [vz i j k hb, hs2, fy f.z hyz.symm hzf hzb, hs1, fx f.z hxz.symm hzf hzb]
+  · intro b h1 h2 h3 h4 h5
+    rw [fz b h3 h4 h5, hs2, fy b h2 h4 h5, hs1, fx b h1 h4 h5]
+
 end Program
 
 end Sopht.Props.C19
